@@ -238,17 +238,54 @@ func partParse(d *driver, gs []GSchema) ([]Case, []gIR) {
 type langDef struct {
 	name string
 	mk   func() languages.Language
+	// final: passes the pipeline applies after the language's own ones, in
+	// the same run (Transforms.FinalPasses; the public API puts
+	// PrefixObjectsNames there). prefix: the prefix they add to names.
+	final  func() compiler.Passes
+	prefix string
 }
 
+func (l langDef) finalPasses() compiler.Passes {
+	if l.final == nil {
+		return nil
+	}
+	return l.final()
+}
+
+// allLanguages: every output language, alone and followed by each
+// name-changing final pass.
 func allLanguages() []langDef {
+	var out []langDef
+	for _, l := range baseLanguages() {
+		out = append(out, l)
+		out = append(out, langDef{name: l.name + "+final PrefixObjectNames(X)", mk: l.mk, prefix: "X",
+			final: func() compiler.Passes { return compiler.Passes{&compiler.PrefixObjectNames{Prefix: "X"}} }})
+		out = append(out, langDef{name: l.name + "+final rename_object(p.S→Zed)", mk: l.mk,
+			final: func() compiler.Passes {
+				return compiler.Passes{&compiler.RenameObject{From: compiler.ObjectReference{Package: "p", Object: "S"}, To: "Zed"}}
+			}})
+	}
+	return out
+}
+
+func langByName(name string) (langDef, bool) {
+	for _, l := range allLanguages() {
+		if l.name == name {
+			return l, true
+		}
+	}
+	return langDef{}, false
+}
+
+func baseLanguages() []langDef {
 	return []langDef{
-		{"go", func() languages.Language { return golang.New(golang.Config{}) }},
-		{"java", func() languages.Language { return java.New(java.Config{}) }},
-		{"jsonschema", func() languages.Language { return jsjenny.New(jsjenny.Config{}) }},
-		{"openapi", func() languages.Language { return oajenny.New(oajenny.Config{}) }},
-		{"php", func() languages.Language { return php.New(php.Config{}) }},
-		{"python", func() languages.Language { return python.New(python.Config{}) }},
-		{"typescript", func() languages.Language { return typescript.New(typescript.Config{}) }},
+		{name: "go", mk: func() languages.Language { return golang.New(golang.Config{}) }},
+		{name: "java", mk: func() languages.Language { return java.New(java.Config{}) }},
+		{name: "jsonschema", mk: func() languages.Language { return jsjenny.New(jsjenny.Config{}) }},
+		{name: "openapi", mk: func() languages.Language { return oajenny.New(oajenny.Config{}) }},
+		{name: "php", mk: func() languages.Language { return php.New(php.Config{}) }},
+		{name: "python", mk: func() languages.Language { return python.New(python.Config{}) }},
+		{name: "typescript", mk: func() languages.Language { return typescript.New(typescript.Config{}) }},
 	}
 }
 
@@ -286,7 +323,7 @@ func derivativeFiltered(dangling []Site) []Site {
 // stagewise re-runs the chain one stage at a time (exactly the stages of
 // Pipeline.ContextForLanguage) and attributes every newly dangling site to
 // the first stage after which it dangles.
-func stagewise(in ast.Schemas, lang languages.Language, pre map[string]bool) (attributed map[string]string, last map[string]Site, stopped string) {
+func stagewise(in ast.Schemas, lang languages.Language, final compiler.Passes, pre map[string]bool) (attributed map[string]string, last map[string]Site, stopped string) {
 	attributed = map[string]string{}
 	last = map[string]Site{}
 	judge := func(stage string, schemas ast.Schemas, builders ast.Builders) {
@@ -304,9 +341,13 @@ func stagewise(in ast.Schemas, lang languages.Language, pre map[string]bool) (at
 		}
 	}
 	cur := ast.Schemas(in.DeepCopy()) // Passes.Process starts from a deep copy
-	for _, pass := range lang.CompilerPasses() {
+	ownPasses := len(lang.CompilerPasses())
+	for i, pass := range lang.CompilerPasses().Concat(final) {
 		var err error
 		name := passName(pass)
+		if i >= ownPasses {
+			name += " (final pass)"
+		}
 		if p := vx.Catch(func() { cur, err = pass.Process(cur) }); p != nil {
 			return attributed, last, "panic in " + name
 		}
@@ -336,11 +377,36 @@ func stagewise(in ast.Schemas, lang languages.Language, pre map[string]bool) (at
 	return attributed, last, ""
 }
 
-func evalChainLang(inputID string, in ast.Schemas, l langDef, det replayDetail) []vx.Failure {
+// evalChainLang: baseDangling holds the targets that dangle after the
+// language's chain WITHOUT final pass (nil for that run itself): a final-pass
+// variant only reports what the final pass adds. The targets dangling at the
+// end of this run are returned.
+func evalChainLang(inputID string, in ast.Schemas, l langDef, det replayDetail, baseDangling map[string]bool) ([]vx.Failure, map[string]bool) {
+	fails, dangling := evalChainLang0(inputID, in, l, det, baseDangling)
+	return fails, dangling
+}
+
+func evalChainLang0(inputID string, in ast.Schemas, l langDef, det replayDetail, baseDangling map[string]bool) ([]vx.Failure, map[string]bool) {
 	a0 := audit(in, nil)
 	pre := map[string]bool{}
+	for t := range baseDangling {
+		pre[t] = true
+		if i := strings.LastIndex(t, "."); i >= 0 {
+			if l.prefix != "" {
+				pre[t[:i+1]+l.prefix+t[i+1:]] = true
+			}
+			if t[i+1:] == "S" {
+				pre[t[:i+1]+"Zed"] = true
+			}
+		}
+	}
 	for _, s := range a0.dangling {
 		pre[s.Target()] = true
+		if l.prefix != "" { // the same dangling reference, once prefixed
+			p := s
+			p.Name = l.prefix + s.Name
+			pre[p.Target()] = true
+		}
 	}
 	idx0 := indexOf(in)
 	var ctx languages.Context
@@ -351,12 +417,13 @@ func evalChainLang(inputID string, in ast.Schemas, l langDef, det replayDetail) 
 			vx.Fatalf("NewPipeline: %v", perr)
 		}
 		pl.Output.Builders = true
+		pl.Transforms.FinalPasses = l.finalPasses()
 		ctx, err = pl.ContextForLanguage(l.mk(), in)
 	})
 	stats.add("executions", "chain", 1)
 	if pan == nil && err != nil {
 		stats.add("chain_outcome", l.name+": pipeline error (allowed)", 1)
-		return nil
+		return nil, nil
 	}
 	final := map[string]Site{}
 	if pan == nil {
@@ -371,16 +438,16 @@ func evalChainLang(inputID string, in ast.Schemas, l langDef, det replayDetail) 
 		}
 		if len(final) == 0 {
 			stats.add("chain_outcome", l.name+": all references resolve", 1)
-			return nil
+			return nil, nil
 		}
 	}
-	attributed, last, stopped := stagewise(in, l.mk(), pre)
+	attributed, last, stopped := stagewise(in, l.mk(), l.finalPasses(), pre)
 	if pan != nil {
 		stats.add("chain_outcome", l.name+": panic (C04), schema stages judged: "+msgClass(pan), 1)
 		stats.add("chain_panic_inputs", inputID, 1)
 		final = last
 		if len(final) == 0 {
-			return nil
+			return nil, nil
 		}
 	} else if stopped != "" {
 		// the real run succeeded but the staged one did not: harness bug
@@ -416,7 +483,11 @@ func evalChainLang(inputID string, in ast.Schemas, l langDef, det replayDetail) 
 			What:   fmt.Sprintf("%s chain on %s: %s %q (at %s of %s) resolves before and dangles after %s", l.name, inputID, s.Kind, s.Target(), s.Pos, s.Owner, stage),
 			Detail: det}
 	}
-	return sortedFailures(byKind)
+	danglingTargets := map[string]bool{}
+	for _, s := range final {
+		danglingTargets[s.Target()] = true
+	}
+	return sortedFailures(byKind), danglingTargets
 }
 
 // chain inputs ---------------------------------------------------------------
@@ -614,8 +685,18 @@ func (c chainCase) Eval() []vx.Failure {
 	}
 	h := canonHash(in)
 	noteState(h)
+	var baseDangling map[string]bool
 	for _, l := range allLanguages() {
-		out = append(out, evalChainLang(c.ID(), in, l, c.detail())...)
+		var fails []vx.Failure
+		if l.final == nil {
+			fails, baseDangling = evalChainLang(c.ID(), in, l, c.detail(), nil)
+			if baseDangling == nil {
+				baseDangling = map[string]bool{}
+			}
+		} else {
+			fails, _ = evalChainLang(c.ID(), in, l, c.detail(), baseDangling)
+		}
+		out = append(out, fails...)
 		if c.kind == "G" {
 			if canonHash(in) != h { // the chain must work on a copy; if it does not, start again from the source
 				stats.add("chain_outcome", "input mutated by the chain (C07), re-parsed", 1)
@@ -985,9 +1066,70 @@ func (c transformCase) Eval() []vx.Failure {
 	}
 	a := audit(after, nil)
 	if len(a.dangling) == 0 {
-		return nil
+		return c.singleRunFailures(a)
 	}
 	return transformFailures(c, after, a)
+}
+
+// singleRunFailures applies the whole sequence (preceded by the language's
+// own passes for a via-seed) in ONE Passes.Process run, the way a
+// transformations file or Transforms.FinalPasses are applied: no deep copy
+// separates the passes, so whatever memory one pass leaves shared is seen by
+// the next one. The result must not hold dangling references that the
+// pass-by-pass application (multi) does not have.
+func (c transformCase) singleRunFailures(multi auditResult) []vx.Failure {
+	var passes compiler.Passes
+	if c.via != "" {
+		l, ok := langByName(c.via)
+		if !ok {
+			vx.Fatalf("seed %s: unknown language", c.seedName())
+		}
+		passes = l.mk().CompilerPasses()
+	}
+	for _, op := range c.seq {
+		pass, err := op.Build()
+		if err != nil {
+			vx.Fatalf("op %s: %v", op, err)
+		}
+		passes = append(passes, pass)
+	}
+	if len(passes) < 2 {
+		return nil // nothing is shared between passes when there is only one
+	}
+	var out ast.Schemas
+	var err error
+	if p := vx.Catch(func() { out, err = passes.Process(c.seed.Build()) }); p != nil || err != nil {
+		stats.add("transform_outcome", "single run: error/panic", 1)
+		return nil
+	}
+	stats.add("executions", "transform", 1)
+	a := audit(out, nil)
+	if len(a.dangling) == 0 {
+		stats.add("transform_outcome", "single run: ok", 1)
+		return nil
+	}
+	known := map[string]bool{}
+	for _, s := range multi.dangling {
+		known[siteKey(s)] = true
+	}
+	last := c.seq[len(c.seq)-1]
+	byKind := map[string]vx.Failure{}
+	for _, s := range a.dangling {
+		if known[siteKey(s)] || (last.Pass == "unspec" && strings.EqualFold(s.Name, "metadata")) {
+			continue
+		}
+		kind := fmt.Sprintf("transform/%s: dangling %s @ %s (%s) [passes applied in one run]", last.Pass, s.Kind, parentConstruct(s), last.Variant)
+		if _, ok := byKind[kind]; ok {
+			continue
+		}
+		byKind[kind] = vx.Failure{Kind: kind,
+			What:   fmt.Sprintf("seed %q, %s applied in one Passes.Process run: %s %q (at %s of %s) names no loaded object, although it resolves when the same passes are applied one run at a time", c.seedName(), seqString(c.seq), s.Kind, s.Target(), s.Pos, s.Owner),
+			Detail: detail("transform", map[string]any{"seed": c.seedName(), "ops": c.seq})}
+	}
+	if len(byKind) > 0 {
+		stats.add("transform_outcome", "single run: dangling reference", 1)
+	}
+	return sortedFailures(byKind)
 }
 
 type e1Result struct {
@@ -1001,6 +1143,8 @@ type succ struct {
 	outcome string
 	hash    [16]byte
 	fails   []vx.Failure
+	// singleFails: failures of the same sequence applied in one run (the state is still expanded)
+	singleFails []vx.Failure
 }
 
 func partTransform(d *driver, thorough bool) e1Result {
@@ -1058,6 +1202,9 @@ func partTransform(d *driver, thorough bool) e1Result {
 							if len(sc.fails) == 0 {
 								sc.outcome = "only references to the removed metadata object dangle (not judged, state not expanded)"
 							}
+						} else {
+							c := transformCase{seed: sd.spec, via: sd.via, seq: append(append([]Op{}, seq...), op)}
+							sc.singleFails = c.singleRunFailures(a)
 						}
 					}
 					results[i] = append(results[i], sc)
@@ -1077,6 +1224,9 @@ func partTransform(d *driver, thorough bool) e1Result {
 					if len(sc.fails) > 0 {
 						c := transformCase{seed: sd.spec, via: sd.via, seq: seq}
 						d.record(c, sc.fails)
+					} else if len(sc.singleFails) > 0 {
+						c := transformCase{seed: sd.spec, via: sd.via, seq: seq}
+						d.record(c, sc.singleFails)
 					}
 					// a state with a dangling reference is reported, never expanded
 					if sc.outcome != "ok" || seen[sc.hash] {
@@ -1422,7 +1572,7 @@ func partFilter(d *driver, thorough bool, gs []GSchema) int {
 			}
 		}
 	}
-	maxG := map[string]int{"jsonschema": 5, "openapi": 5, "cue": 4}
+	maxG := map[string]int{"jsonschema": 6, "openapi": 6, "cue": 4}
 	if thorough {
 		maxG["cue"] = 5
 	}
